@@ -19,6 +19,19 @@ Theorem C03_output_is_primitive :
 Proof. intros E dv tup forbid He. now apply unstructure_primitive. Qed.
 Print Assumptions C03_output_is_primitive.
 
+(* 1a. The same for BaseConverter, whose collection hooks go by the RUNTIME class of the elements and whose class hooks go by
+      the declared attribute types: for every type it has an unstructure hook for ([base_ty]: heterogeneous tuples, NewTypes and
+      Annotated are returned unchanged by its fallback -- outside its documented support -- at top level and as declared
+      attribute types; inside collections the declared element type plays no part), every value of the type, either strategy. *)
+Theorem C03_base_output_is_primitive :
+  forall (E : env) (dv tup forbid : bool),
+    (forall en v, In v (e_enum E en) -> primitive v = true) ->
+    (forall c cd nm ft, e_class E c = Some cd -> assoc (cd_types cd) nm = Some ft -> base_ty ft = true) ->
+    forall (n : nat) (t : ty) (x u : val),
+      base_ty t = true -> uval E x t -> unstructure E (mk_cfg false dv tup forbid) n t x = Ok u -> primitive u = true.
+Proof. intros E dv tup forbid He Henv. now apply base_unstructure_primitive. Qed.
+Print Assumptions C03_base_output_is_primitive.
+
 (* 1b. ... and equals the documented encoding.  [encodes] (Model/ConvEnc.v) is the documentation written down as a relation --
       no fuel, no hooks, no templates: classes become dicts keyed by attribute name in attribute order (tuples in attribute
       order under the tuple strategy), enums their values, sequences lists, heterogeneous tuples tuples, sets sets,
